@@ -177,3 +177,44 @@ Definition ctx_admits (c : ctx) (t : ty) : bool :=
   | CCond => equal t wahr
   | CElem => negb (is_list t)     (* VisitListLit: TYP_BAD_LIST_LITERAL for an element that is a list *)
   end.
+
+(* ---- statement-level operand positions ------------------------------------------------------ *)
+(* VisitWhileStmt (Wiederhole / Solange), VisitIfStmt, VisitListLit (both literal forms), VisitAssignStmt with an
+   indexed target (VisitIndexing), VisitForStmt, VisitForRangeStmt: each operand is an expression of the given class,
+   counters / loop variables are declared with the given type *)
+Inductive stmt : Set :=
+| SRepeat (n : ty)                    (* Wiederhole: ... (n) Mal.                                        *)
+| SWhile (c : ty)                     (* Solange (c), mache: ...                                          *)
+| SIf (c : ty)                        (* Wenn (c), dann: ...                                              *)
+| SListCount (n v : ty)               (* Die <Liste von v> x ist (n) Mal (v).                              *)
+| SListLit (a b : ty)                 (* Die Variable x ist eine Liste, die aus (a), (b) besteht.          *)
+| SIndexAssign (cont idx val : ty)    (* Speichere (val) in cont an der Stelle (idx).                      *)
+| SFor (cnt from to : ty)             (* Für jede <cnt> i von (from) bis (to), mache: ...                  *)
+| SForStep (cnt from to step : ty)    (* ... mit Schrittgröße (step), mache: ...                           *)
+| SForRange (el inn : ty).            (* Für jede <el> e in (inn), mache: ...                              *)
+
+(* the step the parser supplies when none is written: FloatLit 1.0 for a Kommazahl counter, IntLit 1 otherwise *)
+Definition default_step (cnt : ty) : ty := if equal cnt komma then komma else zahl.
+
+(* the declared type of the list in SListCount: the list of the value's class (Zahlen Liste when the value is a list) *)
+Definition count_decl (v : ty) : ty := match list_of v with Some l => l | None => TL BZahl end.
+
+Definition tc_for (cnt from to step : ty) : bool :=
+  ctx_admits (CInit cnt) from                              (* the counter is an ordinary VarDecl *)
+  && is_one_of cnt numeric3 && is_numeric to && is_numeric step.
+
+Definition tc_stmt (s : stmt) : bool :=
+  match s with
+  | SRepeat n => is_one_of n zb
+  | SWhile c | SIf c => equal c wahr
+  | SListCount n v => is_one_of n zb && negb (is_list v) && ctx_admits (CInit (count_decl v)) (count_decl v)
+  | SListLit a b => negb (is_list a) && equal a b
+  | SIndexAssign cont idx val =>
+      is_one_of idx zb && (is_list cont || equal cont text)
+      && ctx_admits (CAssign (if is_list cont then elem_type cont else buchstabe)) val
+  | SFor cnt from to => tc_for cnt from to (default_step cnt)
+  | SForStep cnt from to step => tc_for cnt from to step
+  | SForRange el inn =>
+      (is_list inn || equal inn text)
+      && (if is_list inn then equal el (elem_type inn) else equal el buchstabe)
+  end.
